@@ -350,8 +350,13 @@ def r12_4(chk, repo, uc):
     nsite = 0
     for rel in (UC, CR):
         mod = repo.module(rel)
+        from ..known_funcs_auto import KNOWN
+        known = set(KNOWN.get(rel, ())) or set(mod.funcs)
         for qual, fn in mod.funcs.items():
-            if "from_lengths_and_angles" not in mod.seg(fn) or qual.endswith("from_lengths_and_angles"):
+            if qual.endswith("from_lengths_and_angles") or qual not in known:
+                continue         # a helper a refactoring introduced is read where it is called (expanded below), not on its own
+            fn = mod.expanded(qual, fn)
+            if "from_lengths_and_angles" not in ast.unparse(fn):
                 continue
             sev = Ev(fn, mod.ctx).run()
             for e in sev.events:
